@@ -3,8 +3,13 @@ C02 for CurlyRouter: totality and exact classification.
 
   * the candidate list of the detected service is, as a set, the built routes whose template admits
     the path (`Curly.selectRoutes_spec`); nothing panics on checked templates;
-  * without regex variables in root paths `Spec.claimScore` is `Curly.wsScore`, so the service
-    `detectWebService` picks is one of `Spec.bestServices` (`Curly.detected_best`).
+  * since fix 19aa57d `computeWebserviceScore` evaluates the expression of a `{name:regex}` root
+    token: the router's score IS `Spec.claimScore` (`Curly.claimScore_eq`, from
+    `Curly.wsScoreE_claim` in `Lemmas/CurlyScore.lean`), scoring cannot panic
+    (`Curly.detectWebService_total`), so the service `detectWebService` picks is one of
+    `Spec.bestServices` (`Curly.detected_best`) — no hypothesis on root expressions any more (F03).
+    What is needed of the roots: `Config.wfTemplates` for services with routes
+    (`Curly.rootGood_of_route`), `Curly.rootsRead` for services without.
 -/
 import Restful.Lemmas.ClassifyDetect
 import Restful.Lemmas.Order
@@ -166,50 +171,63 @@ theorem curlyAfterSvc_cases (svc : Service) (hread : ∀ rt ∈ svc.built, ∃ t
 
 /-! ### the detected service is a best service -/
 
-theorem rootRegexOK_of_noRe : ∀ (ts : List TTok) (qs : List Str),
-    ts.all (fun t => match t.base with | .re _ _ => false | _ => true) = true → ts.length ≤ qs.length →
-    Spec.rootRegexOK E ts qs = true
-  | [], _, _, _ => by simp [Spec.rootRegexOK]
-  | _ :: _, [], _, hl => by simp at hl
-  | t :: ts, q :: qs, hall, hl => by
-    simp only [List.all_cons, Bool.and_eq_true] at hall
-    simp only [List.length_cons, Nat.add_le_add_iff_right] at hl
-    rw [Spec.rootRegexOK, rootRegexOK_of_noRe ts qs hall.2 hl, Bool.and_true]
-    have h1 := hall.1
-    split at h1
-    · simp at h1
-    · rename_i hne
-      split
-      · rename_i n e hb; exact absurd hb (hne n e)
-      · rfl
+/-- under `wfTemplates` (services with routes) and `Curly.rootsRead` (services without) every root
+    path reads the way `computeWebserviceScore` treats it -/
+theorem rootGood_of_cfg {cfg : Config} (hk : cfg.router = .curly) (hwf : cfg.wfTemplates = true)
+    (hroots : Curly.rootsRead cfg = true) {s : Service} (hs : s ∈ cfg.services) :
+    RootGood (tokenize s.rootPath) := by
+  cases hb : s.built with
+  | nil =>
+    have hr : s.routes = [] := by
+      unfold Service.built at hb
+      simpa using hb
+    unfold Curly.rootsRead at hroots
+    simp only [List.all_eq_true] at hroots
+    have h := hroots s hs
+    rw [hr] at h
+    simp only [List.isEmpty_nil, Bool.not_true, Bool.false_or] at h
+    split at h
+    · rename_i ts hts
+      left
+      refine ⟨ts, hts, ?_⟩
+      simpa [List.all_eq_true, Option.isNone_iff_eq_none] using h
+    · simp at h
+  | cons rt rest =>
+    have hrt : rt ∈ s.built := by rw [hb]; exact List.mem_cons_self
+    obtain ⟨ts, hts⟩ := C02.wf_template hwf hs hrt
+    rw [hk] at hts
+    exact rootGood_of_route hrt hts
 
-theorem readToks_length {ss : List Str} {ts : List TTok} (h : readToks ss = some ts) : ts.length = ss.length := by
-  have := (readToks_render h).1
-  rw [← this, List.length_map]
+/-- **the router's score is the specification's claim**, regular expressions of root variables
+    included (the former statement needed `Spec.noRootRegex`: F03) -/
+theorem claimScore_eq {cfg : Config} (hk : cfg.router = .curly) (hwf : cfg.wfTemplates = true)
+    (hroots : Curly.rootsRead cfg = true) {s : Service} (hs : s ∈ cfg.services) (qs : List Str) :
+    wsScoreE E qs (tokenize s.rootPath) =
+      match Spec.claimScore E s qs with
+      | some sc => .yes sc
+      | none => .no :=
+  wsScoreE_claim E (rootGood_of_cfg hk hwf hroots hs) qs
 
-/-- without regex variables in root paths the specification's claim is the router's score -/
-theorem claimScore_eq {cfg : Config} (hr : Spec.noRootRegex cfg = true) {s : Service} (hs : s ∈ cfg.services)
-    (qs : List Str) : Spec.claimScore E s qs = wsScore qs (tokenize s.rootPath) := by
-  unfold Spec.noRootRegex at hr
-  simp only [List.all_eq_true] at hr
-  have h := hr s hs
-  unfold Spec.claimScore
-  split at h
-  · rename_i ts hts
-    rw [hts]
-    cases hw : wsScore qs (tokenize s.rootPath) with
-    | none => rfl
-    | some sc =>
-      simp only
-      have hl : ts.length ≤ qs.length := by
-        rw [readToks_length hts]
-        unfold wsScore at hw
-        split at hw
-        · simp at hw
-        · omega
-      rw [rootRegexOK_of_noRe E ts qs h hl]
-      rfl
-  · simp at h
+theorem claimScore_some_iff {cfg : Config} (hk : cfg.router = .curly) (hwf : cfg.wfTemplates = true)
+    (hroots : Curly.rootsRead cfg = true) {s : Service} (hs : s ∈ cfg.services) (qs : List Str) (sc : Nat) :
+    Spec.claimScore E s qs = some sc ↔ wsScoreE E qs (tokenize s.rootPath) = .yes sc := by
+  rw [claimScore_eq E hk hwf hroots hs]
+  cases Spec.claimScore E s qs <;> simp
+
+theorem claimScore_none_iff {cfg : Config} (hk : cfg.router = .curly) (hwf : cfg.wfTemplates = true)
+    (hroots : Curly.rootsRead cfg = true) {s : Service} (hs : s ∈ cfg.services) (qs : List Str) :
+    Spec.claimScore E s qs = none ↔ wsScoreE E qs (tokenize s.rootPath) = .no := by
+  rw [claimScore_eq E hk hwf hroots hs]
+  cases Spec.claimScore E s qs <;> simp
+
+/-- scoring the roots of a checked table cannot panic -/
+theorem detectWebService_total {cfg : Config} (hk : cfg.router = .curly) (hwf : cfg.wfTemplates = true)
+    (hroots : Curly.rootsRead cfg = true) (qs : List Str) :
+    detectWebService E qs cfg.services none ≠ none := by
+  intro h
+  rw [detectWebService_panic] at h
+  obtain ⟨s, hs, hp⟩ := h
+  exact wsScoreE_ne_panic E qs _ (rootGood_of_cfg hk hwf hroots hs).noPanic hp
 
 theorem foldl_max_eq (x : Nat) : ∀ (l : List (Service × Nat)) (init : Nat), (∀ p ∈ l, p.2 ≤ x) → init ≤ x →
     ((∃ p ∈ l, p.2 = x) ∨ init = x) → l.foldl (fun m p => max m p.2) init = x
@@ -228,66 +246,47 @@ theorem foldl_max_eq (x : Nat) : ∀ (l : List (Service × Nat)) (init : Nat), (
       · left; exact ⟨q, hq, hqx⟩
     · right; omega
 
-theorem filterMap_congr' {α β : Type} {f g : α → Option β} : ∀ {l : List α}, (∀ x ∈ l, f x = g x) →
-    l.filterMap f = l.filterMap g
-  | [], _ => rfl
-  | a :: l, h => by
-    rw [List.filterMap_cons, List.filterMap_cons, h a List.mem_cons_self,
-      filterMap_congr' (fun x hx => h x (List.mem_cons_of_mem _ hx))]
-
-/-- the list of scored services of `Spec.bestServices`, on the router's own score -/
-theorem scored_eq {cfg : Config} (hr : Spec.noRootRegex cfg = true) (qs : List Str) :
-    cfg.services.filterMap (fun s => (Spec.claimScore E s qs).map (fun sc => (s, sc))) =
-      cfg.services.filterMap (fun s => (wsScore qs (tokenize s.rootPath)).map (fun sc => (s, sc))) := by
-  apply filterMap_congr'
-  intro s hs
-  rw [claimScore_eq E hr hs]
-
-theorem bestServices_nil {cfg : Config} (hk : cfg.router = .curly) (hr : Spec.noRootRegex cfg = true) (req : Req)
-    (h : detectWebService (tokenize req.path) cfg.services none = none) : Spec.bestServices E cfg req = [] := by
+theorem bestServices_nil {cfg : Config} (hk : cfg.router = .curly) (hwf : cfg.wfTemplates = true)
+    (hroots : Curly.rootsRead cfg = true) (req : Req)
+    (h : detectWebService E (tokenize req.path) cfg.services none = some none) : Spec.bestServices E cfg req = [] := by
   rw [detectWebService_none] at h
   unfold Spec.bestServices
   rw [hk]
   simp only
-  rw [scored_eq E hr]
-  have : cfg.services.filterMap (fun s => (wsScore (tokenize req.path) (tokenize s.rootPath)).map (fun sc => (s, sc))) = [] := by
+  have : cfg.services.filterMap (fun s => (Spec.claimScore E s (tokenize req.path)).map (fun sc => (s, sc))) = [] := by
     rw [List.filterMap_eq_nil_iff]
     intro s hs
-    have := h.2 s hs
-    unfold svcScore at this
-    rw [this]; rfl
+    rw [(claimScore_none_iff E hk hwf hroots hs _).mpr (h.2 s hs)]
+    rfl
   rw [this]
   rfl
 
-theorem detected_best {cfg : Config} (hk : cfg.router = .curly) (hr : Spec.noRootRegex cfg = true) (req : Req)
-    {svc : Service} {sc : Nat} (h : detectWebService (tokenize req.path) cfg.services none = some (svc, sc)) :
+theorem detected_best {cfg : Config} (hk : cfg.router = .curly) (hwf : cfg.wfTemplates = true)
+    (hroots : Curly.rootsRead cfg = true) (req : Req) {svc : Service} {sc : Nat}
+    (h : detectWebService E (tokenize req.path) cfg.services none = some (some (svc, sc))) :
     svc ∈ cfg.services ∧ svc ∈ Spec.bestServices E cfg req := by
-  have hsvc : svc ∈ cfg.services := by
-    rcases detectWebService_mem (tokenize req.path) cfg.services none svc sc h with h' | h'
-    · exact h'
-    · simp at h'
+  have hsvc : svc ∈ cfg.services := detectWebService_mem_none E h
   refine ⟨hsvc, ?_⟩
-  obtain ⟨hsc, hmax⟩ := detectWebService_max (tokenize req.path) cfg.services svc sc h
+  obtain ⟨hsc, hmax⟩ := detectWebService_max E (tokenize req.path) cfg.services svc sc h
   unfold Spec.bestServices
   rw [hk]
   simp only
-  rw [scored_eq E hr]
   have hin : (svc, sc) ∈ cfg.services.filterMap
-      (fun s => (wsScore (tokenize req.path) (tokenize s.rootPath)).map (fun sc => (s, sc))) := by
+      (fun s => (Spec.claimScore E s (tokenize req.path)).map (fun sc => (s, sc))) := by
     rw [List.mem_filterMap]
-    exact ⟨svc, hsvc, by rw [hsc]; rfl⟩
+    exact ⟨svc, hsvc, by rw [(claimScore_some_iff E hk hwf hroots hsvc _ sc).mpr hsc]; rfl⟩
   have hle : ∀ p ∈ cfg.services.filterMap
-      (fun s => (wsScore (tokenize req.path) (tokenize s.rootPath)).map (fun sc => (s, sc))), p.2 ≤ sc := by
+      (fun s => (Spec.claimScore E s (tokenize req.path)).map (fun sc => (s, sc))), p.2 ≤ sc := by
     intro p hp
     rw [List.mem_filterMap] at hp
     obtain ⟨s, hs, hp⟩ := hp
-    cases hw : wsScore (tokenize req.path) (tokenize s.rootPath) with
+    cases hw : Spec.claimScore E s (tokenize req.path) with
     | none => rw [hw] at hp; simp at hp
     | some sc' =>
       rw [hw] at hp
       simp only [Option.map_some, Option.some.injEq] at hp
       subst hp
-      exact hmax s hs sc' hw
+      exact hmax s hs sc' ((claimScore_some_iff E hk hwf hroots hs _ sc').mp hw)
   rw [foldl_max_eq sc _ 0 hle (Nat.zero_le _) (Or.inl ⟨_, hin, rfl⟩)]
   rw [List.mem_map]
   refine ⟨(svc, sc), ?_, rfl⟩
@@ -298,87 +297,94 @@ end Curly
 
 /-! ### the theorems -/
 
-/-- CurlyRouter never panics on a table of checked templates -/
-theorem C02_total_curly (cfg : Config) (hk : cfg.router = .curly) (hwf : cfg.wfTemplates = true) (req : Req) :
+/-- CurlyRouter never panics on a table of checked templates (`hroots`: the root of a route-less
+    service, about which `wfTemplates` says nothing, reads as a template without custom verb) -/
+theorem C02_total_curly (cfg : Config) (hk : cfg.router = .curly) (hwf : cfg.wfTemplates = true)
+    (hroots : Curly.rootsRead cfg = true) (req : Req) :
     ∀ w, route E cfg req ≠ .panic w := by
   intro w
   unfold route routeTagged
   rw [hk]
   simp only
   rw [routeCurly_fst]
-  cases hd : Curly.detectWebService (tokenize req.path) cfg.services none with
-  | none => simp
-  | some x =>
-    obtain ⟨svc, sc⟩ := x
-    simp only
-    have hsvc : svc ∈ cfg.services := by
-      rcases Curly.detectWebService_mem (tokenize req.path) cfg.services none svc sc hd with h' | h'
-      · exact h'
-      · simp at h'
-    have hread : ∀ rt ∈ svc.built, ∃ ts, readTemplate rt.path = some ts := by
-      intro rt hrt
-      have := C02.wf_template hwf hsvc hrt
-      rw [hk] at this
-      exact this
-    obtain ⟨cands, _, hcase⟩ := Curly.curlyAfterSvc_cases E svc hread req
-    cases hdr : detectRoute cands req with
-    | error e =>
-      obtain ⟨c, a⟩ := e
-      rw [hdr] at hcase
-      simp only at hcase
-      rw [hcase]; simp
-    | ok r =>
-      rw [hdr] at hcase
-      simp only at hcase
-      obtain ⟨ps, hps⟩ := hcase
-      rw [hps]; simp
+  cases hd : Curly.detectWebService E (tokenize req.path) cfg.services none with
+  | none => exact absurd hd (Curly.detectWebService_total E hk hwf hroots _)
+  | some d =>
+    cases d with
+    | none => simp
+    | some x =>
+      obtain ⟨svc, sc⟩ := x
+      simp only
+      have hsvc : svc ∈ cfg.services := Curly.detectWebService_mem_none E hd
+      have hread : ∀ rt ∈ svc.built, ∃ ts, readTemplate rt.path = some ts := by
+        intro rt hrt
+        have := C02.wf_template hwf hsvc hrt
+        rw [hk] at this
+        exact this
+      obtain ⟨cands, _, hcase⟩ := Curly.curlyAfterSvc_cases E svc hread req
+      cases hdr : detectRoute cands req with
+      | error e =>
+        obtain ⟨c, a⟩ := e
+        rw [hdr] at hcase
+        simp only at hcase
+        rw [hcase]; simp
+      | ok r =>
+        rw [hdr] at hcase
+        simp only at hcase
+        obtain ⟨ps, hps⟩ := hcase
+        rw [hps]; simp
 
-/-- **C02, CurlyRouter**: on checked templates without regex variables in root paths, hygienic media
-    lists, the outcome is exactly what the decision table says for a best-matching service -/
-theorem C02_classify_curly_partial (E : ReEnv) (cfg : Config) (hk : cfg.router = .curly) (hwf : cfg.wfTemplates = true)
-    (hh : Spec.mediaHygiene cfg = true) (hr : Spec.noRootRegex cfg = true) (req : Req) :
+/-- **C02, CurlyRouter** (full statement: F03 is repaired, `Spec.noRootRegex` is no hypothesis any
+    more): on checked templates with hygienic media lists the outcome is exactly what the decision
+    table says for a best-matching service — best among the roots that CLAIM the URL, regular
+    expressions of root variables included -/
+theorem C02_classify_curly (E : ReEnv) (cfg : Config) (hk : cfg.router = .curly) (hwf : cfg.wfTemplates = true)
+    (hroots : Curly.rootsRead cfg = true) (hh : Spec.mediaHygiene cfg = true) (req : Req) :
     Spec.c02Holds E cfg req (route E cfg req)
       (match route E cfg req with | .selected _ _ _ => 1 | _ => 0) = true := by
   unfold route routeTagged
   rw [hk]
   simp only
   rw [routeCurly_fst]
-  cases hd : Curly.detectWebService (tokenize req.path) cfg.services none with
-  | none =>
-    simp only
-    exact Spec.c02Holds_nosvc E (Curly.bestServices_nil E hk hr req hd)
-  | some x =>
-    obtain ⟨svc, sc⟩ := x
-    simp only
-    obtain ⟨hsvc, hbest⟩ := Curly.detected_best E hk hr req hd
-    have hread : ∀ rt ∈ svc.built, ∃ ts, readTemplate rt.path = some ts := by
-      intro rt hrt
-      have := C02.wf_template hwf hsvc hrt
-      rw [hk] at this
-      exact this
-    obtain ⟨cands, hmem, hcase⟩ := Curly.curlyAfterSvc_cases E svc hread req
-    have hdc := detect_classify E .curly svc.built cands req hmem (fun r hr => C02.hygiene_route hh hsvc hr)
-    cases hdr : detectRoute cands req with
-    | error e =>
-      obtain ⟨c, a⟩ := e
-      rw [hdr] at hcase hdc
-      simp only at hcase hdc
-      rw [hcase]
+  cases hd : Curly.detectWebService E (tokenize req.path) cfg.services none with
+  | none => exact absurd hd (Curly.detectWebService_total E hk hwf hroots _)
+  | some d =>
+    cases d with
+    | none =>
       simp only
-      apply Spec.c02Holds_of E hbest (by simp) (by simp)
-      rw [hk]; exact hdc
-    | ok r =>
-      rw [hdr] at hcase hdc
-      simp only at hcase hdc
-      obtain ⟨ps, hps⟩ := hcase
-      obtain ⟨_, ids, hids, hrid⟩ := hdc
-      rw [hps]
+      exact Spec.c02Holds_nosvc E (Curly.bestServices_nil E hk hwf hroots req hd)
+    | some x =>
+      obtain ⟨svc, sc⟩ := x
       simp only
-      apply Spec.c02Holds_of E hbest (by simp)
-      · intro s r' ps' h
-        simp only [Outcome.selected.injEq] at h
-        exact h.1
-      · rw [hk, hids]
-        simp [Spec.verdictMatches, hrid]
+      obtain ⟨hsvc, hbest⟩ := Curly.detected_best E hk hwf hroots req hd
+      have hread : ∀ rt ∈ svc.built, ∃ ts, readTemplate rt.path = some ts := by
+        intro rt hrt
+        have := C02.wf_template hwf hsvc hrt
+        rw [hk] at this
+        exact this
+      obtain ⟨cands, hmem, hcase⟩ := Curly.curlyAfterSvc_cases E svc hread req
+      have hdc := detect_classify E .curly svc.built cands req hmem (fun r hr => C02.hygiene_route hh hsvc hr)
+      cases hdr : detectRoute cands req with
+      | error e =>
+        obtain ⟨c, a⟩ := e
+        rw [hdr] at hcase hdc
+        simp only at hcase hdc
+        rw [hcase]
+        simp only
+        apply Spec.c02Holds_of E hbest (by simp) (by simp)
+        rw [hk]; exact hdc
+      | ok r =>
+        rw [hdr] at hcase hdc
+        simp only at hcase hdc
+        obtain ⟨ps, hps⟩ := hcase
+        obtain ⟨_, ids, hids, hrid⟩ := hdc
+        rw [hps]
+        simp only
+        apply Spec.c02Holds_of E hbest (by simp)
+        · intro s r' ps' h
+          simp only [Outcome.selected.injEq] at h
+          exact h.1
+        · rw [hk, hids]
+          simp [Spec.verdictMatches, hrid]
 
 end Restful
